@@ -35,7 +35,8 @@ SysFor(c, p) ==
   LET base == [SCTLR |-> MkWordBits((IF Cfg(c).arch >= 7 THEN << <<22, 1>> >> ELSE <<>>) \o
                                     (IF p = 5 THEN << <<0, 1>>, <<28, 1>> >> ELSE <<>>)),
                SCR |-> Zero, HCR |-> Zero, HSCTLR |-> Zero,
-               VBAR |-> <<0, 160>>, MVBAR |-> Zero, HVBAR |-> Zero, NSACR |-> Zero, DFSR |-> Zero, DFAR |-> Zero,
+               VBAR |-> <<0, 160>>, MVBAR |-> Zero, HVBAR |-> Zero, NSACR |-> Zero, CPACR |-> Zero, HCPTR |-> Zero,
+               DFSR |-> Zero, DFAR |-> Zero,
                MPUIR |-> IF p = 5 THEN <<0, 256>> ELSE Zero,
                TTBCR |-> Zero, FCSEIDR |-> Zero, DACR |-> IF p = 5 THEN <<0, 1>> ELSE Zero,
                PRRR |-> IF p = 5 THEN <<0, 43690>> ELSE Zero, NMRR |-> Zero, TTBR0 |-> Zero, TTBR1 |-> Zero]
